@@ -1144,7 +1144,11 @@ func (o *Oracle) checkBackoff(inc *Inc, m *Msg) {
 	}
 	req, _ := m.Req.(*raft.AppendEntriesRequest)
 	resp, _ := m.Resp.(*raft.AppendEntriesResponse)
-	if req == nil || resp == nil || m.Pipeline {
+	if req == nil || resp == nil {
+		return
+	}
+	if m.Pipeline {
+		reset() // pipelined requests are sent ahead of their answers: not a walk
 		return
 	}
 	dst := w.nodes[m.Dst]
